@@ -13,6 +13,7 @@ pub mod c16;
 pub mod c17;
 pub mod c18;
 pub mod c19;
+pub mod c20;
 
 use crate::runner::{Ctx, ReplayFile};
 
@@ -38,6 +39,7 @@ pub fn lookup(id: &str) -> Option<(&'static str, RunFn, ReplayFn, &'static str, 
         "C17" => ("C17", c17::run, c17::replay, "exploration", c17::worker),
         "C18" => ("C18", c18::run, c18::replay, "exploration", c18::worker),
         "C19" => ("C19", c19::run, c19::replay, "fault_enumeration", c19::worker),
+        "C20" => ("C20", c20::run, c20::replay, "exploration", c20::worker),
         _ => return None,
     })
 }
